@@ -199,6 +199,8 @@ struct LmOut {
     params: Vec<f64>,
     damping: f64,
     uphill: usize,
+    /// main-loop iterations executed
+    iters: usize,
 }
 
 /// the linear solve of the loop: curve_fit tries LU only (first solve), curve_fit_jac falls back to full-pivot LU and QR
@@ -218,6 +220,7 @@ fn solve_chain(m: &DMatrix<f64>, b: &mut DVector<f64>, fallback: bool) -> bool {
 /// Err(None) = budget exhausted, Err(Some(msg)) = library-style error
 fn lm_model(f: &Budgeted, xs: &[f64], ys_in: &[f64], initial: &[f64], tol: f64, mut damping: f64, h: f64, mult: f64, mode: JacMode) -> Result<LmOut, Option<String>> {
     let mut uphill = 0usize;
+    let mut iters = 0usize;
     let v = initial.len();
     let mut params = DVector::from_column_slice(initial);
     let ys = DVector::from_column_slice(ys_in);
@@ -325,10 +328,11 @@ fn lm_model(f: &Budgeted, xs: &[f64], ys_in: &[f64], initial: &[f64], tol: f64, 
         if sum_sq > before * (1.0 + 1e-12) {
             uphill += 1;
         }
+        iters += 1;
         jac_fd(f, xs, &mut params, &mut jac, h, mode).ok_or(None)?;
         jac_t = jac.transpose();
     }
-    Ok(LmOut { params: params.iter().cloned().collect(), damping, uphill })
+    Ok(LmOut { params: params.iter().cloned().collect(), damping, uphill, iters })
 }
 
 /// Reference Levenberg-Marquardt with step rejection (Marquardt scaling, analytic Jacobian): same start and initial
@@ -544,6 +548,11 @@ pub fn run_case(case: &Case) -> Outcome {
                 o.label("offset-abscissae");
             }
             let n = xs.len();
+            // abscissae scaled about the origin: the slope scales inversely (the data stay those of the unscaled problem)
+            let slope = &(if *offset == 0.0 && *spread_exp != 0.0 { slope / spread } else { *slope });
+            if *offset == 0.0 && *spread_exp != 0.0 {
+                o.label(if *spread_exp < 0.0 { "scaled-down-abscissae" } else { "scaled-up-abscissae" });
+            }
             let ys: Vec<f64> = (0..n).map(|i| slope * xs[i] + icpt + noise_amp * noise[i % noise.len()]).collect();
             if *mismatch {
                 o.label("invalid");
@@ -641,6 +650,9 @@ pub fn run_case(case: &Case) -> Outcome {
             let damping = &(if linear { *damping } else { damping.max(1e-4) });
             if *damping < 1e-4 {
                 o.label("gauss-newton-damping");
+            }
+            if *damping * (1.0 - 1.0 / *mult) == 1.0 {
+                o.label("damping-multiplier-resonance");
             }
             let mut prm = CurveFitParams::<f64> { damping: *damping, tolerance: *tol, h: *h, damping_mult: *mult };
             let calls = Cell::new(0usize);
@@ -775,6 +787,23 @@ pub fn run_case(case: &Case) -> Outcome {
                             return o.fail_sig(msg, "curve_fit:fd-jacobian-sum:outcome-matches-bug-model");
                         }
                     }
+                    if !*fd {
+                        // K5: the start-up step is computed on a copy of the parameters and discarded, while its residuals
+                        // are kept; when damping (1 - 1/mult) ~ 1 the reduced-damping candidate of the first main iteration
+                        // lands (almost) on the discarded start-up point, the sum of squares "does not change", and the
+                        // loop exits after one iteration whatever the tolerance.
+                        let fm = move |x: f64, p: &[f64]| model_eval(model, x, p);
+                        let bf = Budgeted { f: &fm, calls: Cell::new(0), budget: BUDGET };
+                        let sim = lm_model(&bf, xs, &ys, &st, *tol, *damping, *h, *mult, JacMode::Analytic(model));
+                        let resonance = (*damping * (1.0 - 1.0 / *mult) - 1.0).abs() <= 0.1;
+                        if let (Ok(Ok(p)), Ok(out)) = (&res, &sim) {
+                            let same = p.iter().zip(out.params.iter()).all(|(a, b)| (a - b).abs() <= 1e-9 * (1.0 + a.abs().max(b.abs())));
+                            o.set("loop_iterations", out.iters);
+                            if same && out.iters == 1 && resonance {
+                                return o.fail_sig(msg, "curve_fit_jac:first-iteration-exit:damping-resonance");
+                            }
+                        }
+                    }
                     if !*fd && !linear {
                         // K3: the main loop of curve_fit_jac has no step rejection. Does the failing outcome coincide with
                         // the transliterated loop, did that loop accept a step that raised the sum of squares, and does a
@@ -815,15 +844,27 @@ fn xs_strategy(lo: usize, hi: usize) -> BoxedStrategy<Vec<f64>> {
 }
 
 fn strategy(_t: Tier) -> BoxedStrategy<Case> {
-    let place = prop_oneof![3 => Just((0.0, 0.0)), 2 => (prop_oneof![Just(10.0), Just(-50.0), Just(2010.0), gen::fl(-3000.0, 3000.0)], gen::fl(-1.5, 1.0))];
+    // a seventh of the designs: abscissae about the origin scaled by 10^[-9,6] (micro-units, large units), the slope scaled
+    // inversely so that the data are those of the unscaled problem
+    let place = prop_oneof![3 => Just((0.0, 0.0)), 2 => (prop_oneof![Just(10.0), Just(-50.0), Just(2010.0), gen::fl(-3000.0, 3000.0)], gen::fl(-1.5, 1.0)), 1 => (Just(0.0), gen::fl(-9.0, 6.0))];
     let linear = (xs_strategy(3, 60), gen::fl(-3.0, 3.0), gen::fl(-3.0, 3.0), proptest::collection::vec(gen::fl(-1.0, 1.0), 60), prop_oneof![1 => Just(0.0), 1 => gen::logu(-4.0, -1.0)], any::<u64>(), prop_oneof![15 => Just(false), 1 => Just(true)], place)
         .prop_map(|(xs, slope, icpt, noise, noise_amp, perm_seed, mismatch, (offset, spread_exp))| Case::Linear { xs, slope, icpt, noise, noise_amp, perm_seed, mismatch, offset, spread_exp });
     let curve = (
         (0u8..5, 1usize..=4, xs_strategy(6, 60)),
         (proptest::collection::vec(gen::fl(-2.0, 2.0), 4), proptest::collection::vec(gen::fl(-2.0, 2.0), 4), proptest::collection::vec(gen::fl(-1.0, 1.0), 60), prop_oneof![1 => Just(0.0), 1 => gen::logu(-4.0, -2.0)]),
-        (gen::logu(-12.0, -6.0), prop_oneof![6 => gen::logu(-2.0, 1.0), 2 => gen::logu(-4.0, -2.0), 1 => gen::logu(-10.0, -4.0)], gen::fl(1.1, 5.0), gen::logu(-4.0, -1.0), any::<bool>(), prop_oneof![12 => Just(0u8), 1 => 1u8..=4]),
+        (
+            gen::logu(-12.0, -6.0),
+            // one case in ten: the values a user types - the default pair (2, 2) and other short decimals / dyadic values
+            prop_oneof![
+                9 => (prop_oneof![6 => gen::logu(-2.0, 1.0), 2 => gen::logu(-4.0, -2.0), 1 => gen::logu(-10.0, -4.0)], gen::fl(1.1, 5.0)),
+                1 => (prop_oneof![Just(2.0), Just(1.0), Just(3.0), Just(1.5), Just(5.0), Just(4.0), Just(10.0), Just(0.5), Just(0.1), Just(0.01)], prop_oneof![Just(2.0), Just(1.5), Just(3.0), Just(1.25), Just(4.0), Just(5.0), Just(10.0), Just(4.0 / 3.0), Just(1.1)]),
+            ],
+            gen::logu(-4.0, -1.0),
+            any::<bool>(),
+            prop_oneof![12 => Just(0u8), 1 => 1u8..=4],
+        ),
     )
-        .prop_map(|((model, nparam, xs), (truth, start, noise, noise_amp), (tol, damping, mult, h, fd, invalid))| Case::Curve { model, nparam, xs, truth, start, noise, noise_amp, tol, damping, mult, h, fd, invalid });
+        .prop_map(|((model, nparam, xs), (truth, start, noise, noise_amp), (tol, (damping, mult), h, fd, invalid))| Case::Curve { model, nparam, xs, truth, start, noise, noise_amp, tol, damping, mult, h, fd, invalid });
     let zc = || (gen::fl(-2.0, 2.0), gen::fl(-2.0, 2.0));
     let ccurve = (
         (0u8..2, 1usize..=4, xs_strategy(6, 40)),
@@ -841,7 +882,7 @@ pub fn run(opts: &Opts) -> i32 {
     spec.cases = opts.tier.pick(6_000, 150_000);
     spec.essential = vec![("linear_fit", 0.1), ("curve_fit_jac", 0.2), ("curve_fit", 0.2), ("noisy", 0.2), ("invalid", 0.03), ("gaussian", 0.05), ("logistic", 0.05), ("exponential", 0.05), ("noisy-replicated-abscissae", 0.05), ("curve_fit_jac-complex-data", 0.04)];
     spec.max_discard_frac = 0.2;
-    spec.rule = "generated: linear_fit on 3-60 stratified abscissae in [-2,2] (a third of all designs snapped to a grid of width 0.25/0.5/1, i.e. with replicated abscissae), exactly linear or noisy (10^[-4,-1]), permuted order, mismatched lengths, two fifths of the designs moved to offset + 10^[-1.5,1] x (offsets 10, -50, 2010 or U(-3000,3000): data far from the origin relative to their spread; allowances scale with kappa = sum x^2 / sum (x-mean)^2); curve_fit_jac / curve_fit on 6-60 abscissae with models linear in 1-4 parameters (polynomial and trigonometric bases, arbitrary starts in [-2,2]) and non-linear models a e^{bx}+c, gaussian, logistic (starts within 20% of the truth), noise 0 or 10^[-4,-2], tolerance 10^[-12,-6], damping 10^[-2,1] (two ninths of the cases 10^[-4,-2], one ninth 10^[-10,-4] for the models linear in their parameters: practically Gauss-Newton), multiplier [1.1,5], h 10^[-4,-1]; designs with lambda_min(J^T J) < 1e-3, non-linear designs whose stopping-rule bound exceeds a tenth of the parameter scale, and non-linear designs whose least-squares solution lies further than a tenth of the parameter scale from the generating parameters, are discarded (counted); invalid: negative tolerance / h / damping, mismatched lengths; one case in thirteen is curve_fit_jac on complex data (model linear in 1-4 complex parameters, complex noise; a third of them noise-free with a start that differs from the truth by a common complex phase 1+i, 1-i or i times a real vector) against the complex normal equations; linear_fit on exactly linear complex data over complex abscissae (reproduction). Oracle: normal equations, exact-linear reproduction, permutation invariance; model-call budget (termination); distance to the reference least-squares solution (harness Gauss-Newton with analytic Jacobian) <= 10 sqrt(tol/lambda_min) sqrt(1 + d/(2 mu_min)) + 1e-9 (d = final damping from the transliterated loop, mu_min = smallest eigenvalue of the diagonally scaled Gauss-Newton matrix) (+ 40 h^2 |r| term for finite differences); a failing curve_fit outcome that coincides with the harness's bug-compatible transliteration of the Levenberg-Marquardt loop (Jacobian = sum) is the recorded finding K1; a failing curve_fit_jac outcome on a non-linear model that coincides with the transliterated loop, in which that loop accepted a step raising the sum of squares, and which a safeguarded Levenberg-Marquardt iteration from the same start and damping solves, is the recorded finding K3. Non-trivial = non-linear model, noisy data or >= 3 parameters (linear_fit: noisy or >= 10 points). Distinct = distinct case JSON.".into();
+    spec.rule = "generated: linear_fit on 3-60 stratified abscissae in [-2,2] (a third of all designs snapped to a grid of width 0.25/0.5/1, i.e. with replicated abscissae), exactly linear or noisy (10^[-4,-1]), permuted order, mismatched lengths, two fifths of the designs moved to offset + 10^[-1.5,1] x (offsets 10, -50, 2010 or U(-3000,3000): data far from the origin relative to their spread; allowances scale with kappa = sum x^2 / sum (x-mean)^2), a seventh scaled about the origin by 10^[-9,6] with the slope scaled inversely (micro-units, large units); curve_fit_jac / curve_fit on 6-60 abscissae with models linear in 1-4 parameters (polynomial and trigonometric bases, arbitrary starts in [-2,2]) and non-linear models a e^{bx}+c, gaussian, logistic (starts within 20% of the truth), noise 0 or 10^[-4,-2], tolerance 10^[-12,-6], damping 10^[-2,1] (two ninths of the cases 10^[-4,-2], one ninth 10^[-10,-4] for the models linear in their parameters: practically Gauss-Newton), multiplier [1.1,5] (one case in ten: typed values - damping 2, 1, 3, 1.5, 5, 4, 10, 0.5, 0.1, 0.01 with multiplier 2, 1.5, 3, 1.25, 4, 5, 10, 4/3, 1.1, including the default pair (2,2) and the other pairs with damping (1 - 1/mult) = 1), h 10^[-4,-1]; designs with lambda_min(J^T J) < 1e-3, non-linear designs whose stopping-rule bound exceeds a tenth of the parameter scale, and non-linear designs whose least-squares solution lies further than a tenth of the parameter scale from the generating parameters, are discarded (counted); invalid: negative tolerance / h / damping, mismatched lengths; one case in thirteen is curve_fit_jac on complex data (model linear in 1-4 complex parameters, complex noise; a third of them noise-free with a start that differs from the truth by a common complex phase 1+i, 1-i or i times a real vector) against the complex normal equations; linear_fit on exactly linear complex data over complex abscissae (reproduction). Oracle: normal equations, exact-linear reproduction, permutation invariance; model-call budget (termination); distance to the reference least-squares solution (harness Gauss-Newton with analytic Jacobian) <= 10 sqrt(tol/lambda_min) sqrt(1 + d/(2 mu_min)) + 1e-9 (d = final damping from the transliterated loop, mu_min = smallest eigenvalue of the diagonally scaled Gauss-Newton matrix) (+ 40 h^2 |r| term for finite differences); a failing curve_fit outcome that coincides with the harness's bug-compatible transliteration of the Levenberg-Marquardt loop (Jacobian = sum) is the recorded finding K1; a failing curve_fit_jac outcome on a non-linear model that coincides with the transliterated loop, in which that loop accepted a step raising the sum of squares, and which a safeguarded Levenberg-Marquardt iteration from the same start and damping solves, is the recorded finding K3; one that coincides with the transliterated loop, in which that loop exited after its first main iteration with damping (1 - 1/mult) within 0.1 of 1, is the recorded finding K5. Non-trivial = non-linear model, noisy data or >= 3 parameters (linear_fit: noisy or >= 10 points). Distinct = distinct case JSON.".into();
     spec.assumptions = vec!["reference least-squares solution by Gauss-Newton from the generating parameters".into(), "bug-compatible LM transliteration tracks the implementation bit-for-bit (same nalgebra calls)".into()];
     spec.max_shrink_iters = 400;
     run_spec(spec, opts)
